@@ -677,3 +677,29 @@ def rowwise_state(outer: ast.AST, fn: ast.AST) -> List[str]:
         if isinstance(n, (ast.Nonlocal, ast.Global)):
             out.append(" ".join(ast.unparse(n).split())[:90])
     return out
+
+
+def shared_mutable_values(func: ast.AST) -> List[str]:
+    """constructions that make several keys / slots share ONE mutable object: dict.fromkeys(keys, [] | {} | set()), [[]] * n, [{}] * n,
+    and mutable default arguments that the function mutates"""
+    def mutable(e):
+        return isinstance(e, (ast.List, ast.Dict, ast.Set, ast.ListComp, ast.DictComp, ast.SetComp)) or \
+            (isinstance(e, ast.Call) and call_name(e) in ("list", "dict", "set", "defaultdict", "collections.defaultdict", "deque", "collections.deque"))
+    out = []
+    for n in ast.walk(func):
+        if isinstance(n, ast.Call) and call_name(n).endswith("fromkeys") and len(n.args) == 2 and mutable(n.args[1]):
+            out.append(" ".join(ast.unparse(n).split())[:80])
+        if isinstance(n, ast.BinOp) and isinstance(n.op, ast.Mult):
+            for a in (n.left, n.right):
+                if isinstance(a, ast.List) and a.elts and all(mutable(e) for e in a.elts):
+                    out.append(" ".join(ast.unparse(n).split())[:80])
+    if isinstance(func, (ast.FunctionDef, ast.AsyncFunctionDef)):
+        a = func.args
+        pos = a.posonlyargs + a.args
+        for p_, d in list(zip(pos[len(pos) - len(a.defaults):], a.defaults)) + [(p_, d) for p_, d in zip(a.kwonlyargs, a.kw_defaults) if d is not None]:
+            if mutable(d):
+                muts = [c for c in ast.walk(func) if isinstance(c, ast.Call) and isinstance(c.func, ast.Attribute) and c.func.attr in _MUT_METHODS and isinstance(c.func.value, ast.Name) and c.func.value.id == p_.arg]
+                stores = [t for t, v, s_ in assignments(func) if isinstance(t, ast.Subscript) and isinstance(t.value, ast.Name) and t.value.id == p_.arg]
+                if muts or stores:
+                    out.append(f"mutable default {p_.arg}={ast.unparse(d)} is mutated in the body")
+    return out
